@@ -224,9 +224,17 @@ def _b_zip(it, args, kwargs, node):
     return ops.ZipVal(list(args))
 
 
+class EnumBag:
+    def __init__(self, bag, start):
+        self.bag = bag
+        self.start = start
+
+
 def _b_enumerate(it, args, kwargs, node):
     from . import ops
     start = args[1] if len(args) > 1 else kwargs.get("start", 0)
+    if isinstance(ops.strval(args[0]), ABag) and isinstance(start, int):
+        return EnumBag(ops.strval(args[0]), start)
     return [(i + start, x) for i, x in enumerate(ops.iterate(it, args[0], node))]
 
 
